@@ -298,6 +298,15 @@ func runC07Ht(c map[string]interface{}, i int) []map[string]interface{} {
 				}
 			}
 			vMust(os.Rename(tmp, file))
+		case "cfglogin":
+			// the daemon's own generated configuration (it names a sample password file with username / password) to which
+			// the operator added the directory section, loaded by the real loader: a directory is configured, so the
+			// directory decides - here it does not answer and nothing is cached: nobody gets in, least of all the sample user
+			st := vConfiguredState(map[string]string{"ldap_target_urls": `"ldaps://127.0.0.1:1"`, "bind_pattern": `"uid=%s,ou=people,dc=example,dc=com"`})
+			ok, err := st.passwordChecker.PasswordAuthenticate(vStr(a, "user"), []byte(vStr(a, "pw")))
+			out["accepted"] = ok && err == nil
+			out["fileaccepts"] = false // what decides (the directory) accepts nothing
+			out["backend"] = fmt.Sprintf("%T", st.passwordChecker)
 		case "htlogin":
 			u, pw := vStr(a, "user"), vStr(a, "pw")
 			out["fileaccepts"] = content[u] == pw && pw != ""
